@@ -524,9 +524,11 @@ public:
         bool
         isCharRefForbidden(XalanDOMChar  theChar) const
         {
+            // A forbidden character cannot be written as
+            // a character reference either.
             return theChar > s_lastSpecial ?
                         false :
-                        s_specialChars[theChar] == eCRFb;
+                        s_specialChars[theChar] >= eForb;
         }
 
     private:
